@@ -1588,7 +1588,8 @@ def _is_mutable_ctor(e: ast.AST) -> bool:
 
 
 _STR_FOLD = {"startswith", "endswith", "split", "rsplit", "partition", "rpartition", "lower", "upper", "strip",
-             "lstrip", "rstrip", "find", "count", "isidentifier", "isalnum", "replace", "casefold", "title"}
+             "lstrip", "rstrip", "find", "count", "isidentifier", "isalnum", "replace", "casefold", "title", "isdigit", "isalpha", "isdecimal", "isnumeric",
+             "isupper", "islower", "isspace", "isascii", "capitalize", "swapcase", "removeprefix", "removesuffix", "index", "rfind", "zfill", "splitlines", "join"}
 
 _CONST_CACHE: Dict[Tuple[str, str], V] = {}
 
